@@ -14,6 +14,7 @@ from vlib.vx import Fn, Item, Raw, Region, Scan
 from vlib.runner import Unit
 
 CI = "core/src/security/curve/cipher.rs"
+HS = "core/src/security/curve/handshake.rs"
 IMPL = r"impl\s+IDataCipher\s+for\s+CurveDataCipher\b"
 
 GLUE = """
@@ -48,6 +49,19 @@ pub fn verif_mac_from(s: &[u8]) -> (r: Result<Mac, ZmqError>) ensures s@.len() =
 // R8: vec![0u8; n]
 #[verifier::external_body]
 pub fn verif_zeros(n: usize) -> (r: Vec<u8>) ensures r@.len() == n { unimplemented!() }
+// ---- the completed CURVE handshake, as far as the hand-over to the data phase is concerned: the key exchange (dryoc crypto_kx over
+// the two static key pairs, role-dependent) yields a receive key and a transmit key; the handshake-phase key (crypto_box beforenm) is
+// a different value and must NOT be used for data records (one shared key would make record #n of both directions use the same
+// (key, nonce): a record reflected to its sender would authenticate)
+pub struct CurveHandshake { pub complete: bool, pub precomputed_key: Option<[u8; 32]>, pub kx: Ghost<([u8; 32], [u8; 32])> }
+impl CurveHandshake {
+  #[verifier::external_body]
+  pub fn into_session_keys(self) -> (r: Result<([u8; 32], [u8; 32]), ZmqError>)
+    ensures r matches Ok(k) ==> k == self.kx@ && self.complete, !self.complete ==> r is Err
+  { unimplemented!() }
+  // R8: Self::key_prefix(&k) -- a diagnostic string
+  #[verifier::external_body] pub fn key_prefix(k: &[u8; 32]) -> u8 { unimplemented!() }
+}
 impl CurveDataCipher {
   // construct_nonce(counter): 16-byte prefix ++ le64(counter) (slice copying into a fixed array: abstract, identified by the counter)
   pub fn construct_nonce(counter: u64) -> (r: NonceV) ensures r.counter == counter { NonceV { counter } }
@@ -71,6 +85,17 @@ parts = [
   Raw("prelude/std.rs"),
   Item(CI, "struct", "CurveDataCipher", keep_derive=(), extra=[("R5", "recv_nonce_counter: u64,", "recv_nonce_counter: u64,\n  pub log: CryptoLog,", 1)]),
   Raw(text=GLUE, label="nonce-glue"),
+  Fn(CI, "new", impl=r"impl\s+CurveDataCipher\b", emit_impl="impl CurveDataCipher",
+     ensures=[("C18:a_fresh_cipher_uses_the_keys_it_is_given_and_starts_both_counters_at_one",
+               "r.encode_key == encode_key && r.decode_key == decode_key && r.send_nonce_counter == 1 && r.recv_nonce_counter == 1 && r.log.enc@.len() == 0 && r.log.dec_all@.len() == 0")],
+     extra=[("R5", "recv_nonce_counter: 1,", "recv_nonce_counter: 1,\n      log: CryptoLog { enc: Ghost(Seq::empty()), dec_ok: Ghost(Seq::empty()), dec_all: Ghost(Seq::empty()) },", 1)]),
+  # the hand-over from the handshake to the data phase: which key goes where
+  Fn(HS, "into_data_cipher", impl=r"impl\s+CurveHandshake\b", emit_impl="impl CurveHandshake",
+     sig_sub=[("Result<Box<dyn IDataCipher>, ZmqError>", "Result<Box<CurveDataCipher>, ZmqError>")],   # R5: the trait-object coercion of the boxed cipher is dropped
+     ensures=[("C18:records_are_sealed_with_the_transmit_key_and_opened_with_the_receive_key_of_the_key_exchange",
+               "r matches Ok(c) ==> c.encode_key == self.kx@.1 && c.decode_key == self.kx@.0 && c.send_nonce_counter == 1 && c.recv_nonce_counter == 1"),
+              ("C18:no_data_cipher_from_an_incomplete_handshake", "!self.complete ==> r is Err")],
+     extra=[("R8", "self.phase != CurveHandshakePhase::Complete", "!self.complete", "*")]),
   Fn(CI, "encrypt", impl=IMPL, emit_impl="impl CurveDataCipher",
      requires=["old(self).send_nonce_counter < u64::MAX", "plaintext@.len() <= 0x7FFF_FFFF_FFFF_FF00"],
      ensures=[
